@@ -72,6 +72,10 @@ pub struct Layout {
     /// 0 compact, 1 indented, 2 indented + comments + unrelated elements
     pub noise: u8,
     pub ecu_block: bool,
+    /// absent optional text elements that are not part of a key (frame MESSAGE_TYPE / MESSAGE_INFO, PDU SHORT-NAME) are
+    /// written as empty-element tags (`<MESSAGE_INFO/>`) instead of being left out
+    #[serde(default)]
+    pub empty_tags: bool,
 }
 
 // ------------------------------------------------------------------------------------------------
@@ -386,6 +390,9 @@ pub fn render(m: &Model, l: &Layout) -> Vec<String> {
                     w.open(&t, &format!(" ID=\"{}\"", esc_attr(&p.id)));
                     if let Some(n) = &p.short_name {
                         w.leaf(&format!("{}SHORT-NAME", st.ho), n);
+                    } else if l.empty_tags {
+                        w.nl();
+                        w.s.push_str(&format!("<{}SHORT-NAME/>", st.ho));
                     }
                     match &p.desc {
                         Desc::Absent => {}
@@ -432,9 +439,15 @@ pub fn render(m: &Model, l: &Layout) -> Vec<String> {
                             w.open(&me, "");
                             if let Some(v) = &e.message_type {
                                 w.leaf("MESSAGE_TYPE", v);
+                            } else if l.empty_tags {
+                                w.nl();
+                                w.s.push_str("<MESSAGE_TYPE/>");
                             }
                             if let Some(v) = &e.message_info {
                                 w.leaf("MESSAGE_INFO", v);
+                            } else if l.empty_tags {
+                                w.nl();
+                                w.s.push_str("<MESSAGE_INFO/>");
                             }
                             if let Some(v) = &e.application_id {
                                 w.leaf("APPLICATION_ID", v);
@@ -540,9 +553,38 @@ fn model_sized(large: bool) -> BoxedStrategy<Model> {
         prop::bool::weighted(0.08),
     )
         .prop_map(move |(codings, signals, pdus, frames, dangling)| {
-            let codings: Vec<(String, String)> = codings.into_iter().enumerate().map(|(i, b)| (format!("CODING_{}", i), b)).collect();
+            // ids are unique within their kind; sometimes an id of one kind also names something of another kind (a coding
+            // called like its own base data type or like a signal, a signal whose coding reference is its own id): the
+            // kinds have separate name spaces, so nothing changes for the model
+            let collide = codings.len() + signals.len() * 3;
+            let codings: Vec<(String, String)> = codings
+                .into_iter()
+                .enumerate()
+                .map(|(i, b)| {
+                    let id = match (i, collide % 11) {
+                        (0, 1) => b.clone(),
+                        (0, 2) => "A_UINT8".to_string(),
+                        (1, 3) => "SIG_0".to_string(),
+                        _ => format!("CODING_{}", i),
+                    };
+                    (id, b)
+                })
+                .collect();
             // signals refer to codings 0..8 (some dangling when there are fewer codings)
-            let signals: Vec<(String, String)> = signals.into_iter().enumerate().map(|(i, c)| (format!("SIG_{}", i), format!("CODING_{}", c))).collect();
+            let signals: Vec<(String, String)> = signals
+                .into_iter()
+                .enumerate()
+                .map(|(i, c)| {
+                    let r = match (i, collide % 11) {
+                        (0, 4) => "SIG_0".to_string(),
+                        (1, 5) => "SIG_0".to_string(),
+                        (0, 1) | (0, 2) => codings.first().map(|c| c.0.clone()).unwrap_or_else(|| "CODING_0".to_string()),
+                        (0, 3) => "SIG_0".to_string(),
+                        _ => format!("CODING_{}", c),
+                    };
+                    (format!("SIG_{}", i), r)
+                })
+                .collect();
             let pdus: Vec<Pdu> = pdus
                 .into_iter()
                 .map(|(idn, short_name, desc, byte_length, sigs)| {
@@ -594,12 +636,12 @@ fn model_sized(large: bool) -> BoxedStrategy<Model> {
 }
 
 pub fn layout() -> BoxedStrategy<Layout> {
-    (1u8..=4, vec((0u8..4, any::<u16>()), 40), vec(any::<u16>(), 1..24), 0u8..4, any::<bool>(), 0u8..3, prop::bool::weighted(0.3))
-        .prop_map(|(files, assign, child_keys, prefix_style, refs_as_pairs, noise, ecu_block)| Layout { files, assign, child_keys, prefix_style, refs_as_pairs, noise, ecu_block })
+    (1u8..=4, vec((0u8..4, any::<u16>()), 40), vec(any::<u16>(), 1..24), 0u8..4, any::<bool>(), 0u8..3, prop::bool::weighted(0.3), prop::bool::weighted(0.25))
+        .prop_map(|(files, assign, child_keys, prefix_style, refs_as_pairs, noise, ecu_block, empty_tags)| Layout { files, assign, child_keys, prefix_style, refs_as_pairs, noise, ecu_block, empty_tags })
         .boxed()
 }
 
 /// the canonical layout: one file, definition order, sample-file style
 pub fn plain_layout() -> Layout {
-    Layout { files: 1, assign: vec![], child_keys: vec![], prefix_style: 0, refs_as_pairs: false, noise: 1, ecu_block: false }
+    Layout { files: 1, assign: vec![], child_keys: vec![], prefix_style: 0, refs_as_pairs: false, noise: 1, ecu_block: false, empty_tags: false }
 }
